@@ -66,3 +66,23 @@ func DumpExternal(p *core.Prog) {
 		fmt.Printf("%4d %s\n", seen[k], k)
 	}
 }
+
+// DumpCalls prints every call site whose callee name contains pat with the origin terms of its arguments (debug aid).
+func DumpCalls(p *core.Prog, pat string) {
+	o := core.NewOrigins()
+	for _, fn := range p.Funcs() {
+		for _, b := range fn.Blocks {
+			for _, in := range b.Instrs {
+				ci, ok := in.(ssa.CallInstruction)
+				if !ok || !strings.Contains(core.CalleeName(ci.Common()), pat) {
+					continue
+				}
+				var as []string
+				for _, a := range ci.Common().Args {
+					as = append(as, o.Of(a).String())
+				}
+				fmt.Printf("%s %s: %s(%s)\n", p.Pos(in.Pos()), core.FuncName(fn), core.CalleeName(ci.Common()), strings.Join(as, " | "))
+			}
+		}
+	}
+}
